@@ -152,8 +152,12 @@ func (r *Run) Finish() {
 	if err != nil {
 		Fatal("evidence: %v", err)
 	}
-	os.MkdirAll(filepath.Join(Verif, "evidence"), 0o755)
-	if err := os.WriteFile(filepath.Join(Verif, "evidence", r.ID+".json"), b, 0o644); err != nil {
+	evDir := filepath.Join(Verif, "evidence")
+	if len(r.ID) != 3 || r.ID[0] != 'C' {
+		evDir = filepath.Join(Verif, "out") // maintenance runs (FIX, SELFTEST) are not evidence of a property
+	}
+	os.MkdirAll(evDir, 0o755)
+	if err := os.WriteFile(filepath.Join(evDir, r.ID+".json"), b, 0o644); err != nil {
 		Fatal("evidence: %v", err)
 	}
 	if os.Getenv("BKLV_KEEP") == "" { os.RemoveAll(r.Dir) }
